@@ -672,3 +672,102 @@ def r7_sibling_resolvers(chk, cls):
             continue
         raise AnalysisError(f"{gi.key}: the `{K}` arm returns `{short(ei, 50)}` - cannot tell which of several matching atoms it picks")
     # every del_atom override that computes a row index does so from the same argument that get_atom resolves - covered by R1
+
+
+def r7_designators_are_atomlike(chk, cls, rule="C11.R8"):
+    """`AtomLike` is the package's test for "this argument designates an atom" (`isinstance(a2, AtomLike)` in CartesianGeometry.vector
+    decides between an atom and a point).  The resolvers get_atom / get_atom_index are its siblings: every type they resolve must
+    be a member of that union (evaluated for C11 only: a resolver that takes more types keeps atoms and rows aligned), or code that asks `isinstance(x, AtomLike)` first takes a designator the resolvers accept (a numpy
+    integer) for something else - `vector(a1, np.int64(3))` is then the vector to the *point* 3, and rotate_dihedral turns about it."""
+    prog = chk.prog
+    pm = cls["Promolecule"]
+    mod = pm.module
+    alias = [t for t in mod.tree.body if isinstance(t, ast.Assign) and len(t.targets) == 1 and isinstance(t.targets[0], ast.Name) and t.targets[0].id == "AtomLike"]
+    chk.require(len(alias) == 1, "AtomLike alias vanished from molli/chem/atom.py")
+    members = set()
+
+    def union(e):
+        if isinstance(e, ast.BinOp) and isinstance(e.op, ast.BitOr):
+            union(e.left)
+            union(e.right)
+        elif isinstance(e, ast.Subscript) and norm(e.value) in ("Union", "typing.Union"):
+            for x in (e.slice.elts if isinstance(e.slice, ast.Tuple) else [e.slice]):
+                union(x)
+        else:
+            members.add(norm(e))
+    union(alias[0].value)
+    for meth in ("get_atom", "get_atom_index"):
+        f = prog.method(pm, meth)
+        chk.require(f is not None, f"Promolecule.{meth} vanished")
+        raw = getattr(f, "raw", None) or f.node
+        pats = set()
+        for m in ast.walk(raw):
+            if isinstance(m, ast.MatchClass):
+                pats.add(norm(m.cls))
+            if isinstance(m, ast.Call) and norm(m.func) == "isinstance" and len(m.args) == 2:
+                for x in (m.args[1].elts if isinstance(m.args[1], ast.Tuple) else [m.args[1]]):
+                    if isinstance(x, ast.BinOp):
+                        tmp = set()
+                        def u2(e):
+                            if isinstance(e, ast.BinOp):
+                                u2(e.left); u2(e.right)
+                            else:
+                                tmp.add(norm(e))
+                        u2(x)
+                        pats |= tmp
+                    else:
+                        pats.add(norm(x))
+        pats.discard("AtomLike")
+        extra = sorted(p_ for p_ in pats if p_ not in members)
+        chk.decide(not extra, rule, f"{f.key}:designator-types-are-AtomLike", f.where(), f"resolves {sorted(pats)}, all members of AtomLike = {sorted(members)}",
+                   f"{f.qualname} resolves {extra}, which AtomLike ({' | '.join(sorted(members))}) does not list: `isinstance(x, AtomLike)` in CartesianGeometry.vector takes such a "
+                   "designator for a point - rotate_dihedral / distance with a numpy-integer index use the coordinates (i, i, i) instead of atom i")
+
+
+def view_keeps_caller_order(chk, rule):
+    """Evaluated for the properties that pair rows of a view with something outside it (C11 alignment, C13 stereo displacement); a view
+    that lists its atoms in another order is still consistent in itself, so this is no clause of C05."""
+    prog = chk.prog
+    sub = prog.cls("molli.chem.structure:Substructure")
+    # the view lists its atoms in the order the caller named them: alignment pairs row k of a view with row k of a reference, and the
+    # drawing code addresses the two ends of a bond as rows 0 and 1 of `substructure((a1, a2))`.  A constructor that "normalises" the
+    # selection (sorted, set, parent order) pairs other atoms.
+    REORDER = ("sorted", "set", "frozenset", "reversed", "unique", "sort", "fromkeys")
+    st_cls = prog.cls("molli.chem.structure:Structure")
+    sm = prog.method(st_cls, "substructure")
+    init = prog.method(sub, "__init__")
+    chk.require(sm is not None and init is not None and init.cls == sub, "Structure.substructure / Substructure.__init__ vanished")
+    chk.analysed(sm, init)
+    ctor = [c for c in ast.walk(sm.node) if isinstance(c, ast.Call) and call_name(c) == "Substructure"]
+    chk.require(len(ctor) >= 1 and len(ctor[0].args) >= 2, "Structure.substructure does not build a Substructure(self, atoms)")
+    from ..canon import Env as _Env
+
+    sel = _Env(sm.node).expand(ctor[0].args[1])
+    ro = [c for c in ast.walk(sel) if isinstance(c, ast.Call) and (call_name(c) or "").split(".")[-1] in REORDER]
+    ro += [c for c in ast.walk(sel) if isinstance(c, (ast.Set, ast.SetComp))]
+    chk.decide(not ro and sm.params()[1] in names_in(sel), rule, "molli/chem/structure.py:Structure.substructure:in-caller-order", sm.where(ctor[0]),
+               f"Substructure(self, {short(sel, 30)}): the selection as the caller ordered it",
+               f"Structure.substructure hands `{short(sel, 50)}` to the view: the caller's order of the atoms is lost (`{short(ro[0], 30) if ro else ''}`) - an alignment whose mapping is "
+               "not ascending pairs the core with the wrong reference atoms, and substructure((a1, a2)) no longer has a1 in row 0")
+    p_atoms = init.params()[2] if len(init.params()) > 2 else None
+    asg = [t for t in walk_no_nested(init.node) if isinstance(t, ast.Assign) and any(norm(x) == "self._atoms" for x in t.targets)]
+    chk.require(p_atoms is not None and len(asg) >= 1, "Substructure.__init__: no assignment to self._atoms")
+    val = _Env(init.node).expand(asg[-1].value)
+    outer = None
+    v_ = val
+    while isinstance(v_, ast.Call) and (call_name(v_) or "") in ("list", "tuple") and v_.args:
+        v_ = v_.args[0]
+    if isinstance(v_, (ast.ListComp, ast.GeneratorExp)):
+        outer = v_.generators[0].iter
+    elif isinstance(v_, ast.Call) and (call_name(v_) or "") == "map" and len(v_.args) == 2:
+        outer = v_.args[1]
+    while isinstance(outer, ast.Call) and (call_name(outer) or "") in ("list", "tuple", "iter") and outer.args:
+        outer = outer.args[0]
+    key = "molli/chem/structure.py:Substructure.__init__:in-caller-order"
+    if outer is None:
+        chk.note(f"C05.R5: Substructure.__init__ fills _atoms by `{short(val, 50)}`, a form whose order is not classified; no verdict")
+        chk.ok(rule, key, init.where(asg[-1]), "not classified (noted)")
+    else:
+        chk.decide(isinstance(outer, ast.Name) and outer.id == p_atoms, rule, key, init.where(asg[-1]), f"_atoms follows the `{p_atoms}` argument item by item",
+                   f"Substructure.__init__ fills _atoms by walking `{short(outer, 40)}`, not the `{p_atoms}` argument: the atoms come out in another order than the caller gave "
+                   "(parent order instead of selection order) - rows of the view's coordinates are paired with other atoms than the caller addressed")
